@@ -47,9 +47,48 @@ pub fn exec(func: &str, a: &mut Args) -> String {
                 _ => b(query::details::intersection_test_cuboid_cuboid(&m, &c1, &c2)).into(),
             }
         }
+        // ---- follow-up 2: the four verdicts of any pair (composites with many parts included), BOTH argument orders:
+        //      `<it> <distance> <intersecting | disjoint | within gap> <none | some dist>` ; the same for (2, 1)
+        "v_comp" => {
+            let s1 = c03::sh(a); let p1 = d3::iso(a); let s2 = c03::sh(a); let p2 = d3::iso(a); let margin = a.f(); let pred = a.f();
+            let (g1, g2) = (c03::dynsh(&s1), c03::dynsh(&s2));
+            let four = |pa: &Isometry<Real>, ga: &dyn crate::p3::shape::Shape, pb: &Isometry<Real>, gb: &dyn crate::p3::shape::Shape| -> Option<String> {
+                let it = query::intersection_test(pa, ga, pb, gb).ok()?;
+                let d = query::distance(pa, ga, pb, gb).ok()?;
+                let cp = match query::closest_points(pa, ga, pb, gb, margin).ok()? {
+                    ClosestPoints::Intersecting => "intersecting".to_string(), ClosestPoints::Disjoint => "disjoint".to_string(),
+                    ClosestPoints::WithinMargin(x, y) => format!("within {}", ff((y - x).norm())) };
+                let c = match query::contact(pa, ga, pb, gb, pred).ok()? { None => "none".to_string(), Some(c) => format!("some {}", ff(c.dist)) };
+                Some(format!("{} {} {} {}", b(it), ff(d), cp, c))
+            };
+            match (four(&p1, &*g1, &p2, &*g2), four(&p2, &*g2, &p1, &*g1)) {
+                (Some(x), Some(y)) => format!("{} ; {}", x, y),
+                _ => "unsupported".into(),
+            }
+        }
+        "v2_comp" => {
+            use crate::p2::query as q2d;
+            let s1 = c03::two::sh(a); let p1 = d2::iso(a); let s2 = c03::two::sh(a); let p2 = d2::iso(a); let margin = a.f(); let pred = a.f();
+            let (g1, g2) = (c03::two::dynsh(&s1), c03::two::dynsh(&s2));
+            let four = |pa: &d2::Isometry<Real>, ga: &dyn crate::p2::shape::Shape, pb: &d2::Isometry<Real>, gb: &dyn crate::p2::shape::Shape| -> Option<String> {
+                let it = q2d::intersection_test(pa, ga, pb, gb).ok()?;
+                let d = q2d::distance(pa, ga, pb, gb).ok()?;
+                let cp = match q2d::closest_points(pa, ga, pb, gb, margin).ok()? {
+                    q2d::ClosestPoints::Intersecting => "intersecting".to_string(), q2d::ClosestPoints::Disjoint => "disjoint".to_string(),
+                    q2d::ClosestPoints::WithinMargin(x, y) => format!("within {}", ff((y - x).norm())) };
+                let c = match q2d::contact(pa, ga, pb, gb, pred).ok()? { None => "none".to_string(), Some(c) => format!("some {}", ff(c.dist)) };
+                Some(format!("{} {} {} {}", b(it), ff(d), cp, c))
+            };
+            match (four(&p1, &*g1, &p2, &*g2), four(&p2, &*g2, &p1, &*g1)) {
+                (Some(x), Some(y)) => format!("{} ; {}", x, y),
+                _ => "unsupported".into(),
+            }
+        }
         // ---- contact self-consistency through the real dispatcher (any pair, composites included): the contact in the
         //      world frame followed by `@ m1 m2`, the point-query distance of each witness to its own shape
-        "k_contact" => {
+        //      (follow-up 2: `e_contact` / `e2_contact` = same call on a convex pair, judged against the EXACT signed
+        //      separation: distance when apart, minimum separating translation when overlapping)
+        "k_contact" | "e_contact" => {
             let s1 = c03::sh(a); let p1 = d3::iso(a); let s2 = c03::sh(a); let p2 = d3::iso(a); let pred = a.f();
             let (g1, g2) = (c03::dynsh(&s1), c03::dynsh(&s2));
             match query::contact(&p1, &*g1, &p2, &*g2, pred) {
@@ -58,7 +97,15 @@ pub fn exec(func: &str, a: &mut Args) -> String {
                 Ok(Some(c)) => format!("{} @ {} {}", c03::fcontact(&Some(c)), ff(g1.distance_to_point(&p1, &c.point1, true)), ff(g2.distance_to_point(&p2, &c.point2, true))),
             }
         }
-        "k2_contact" => {
+        // ---- follow-up 2: contact distance of two rectangles with parallel axes (closed-form model): he1 he2 t pos1
+        "rect2_dist" => {
+            let he1 = d2::v(a); let he2 = d2::v(a); let t = d2::v(a); let p1 = d2::iso(a);
+            let p2 = p1 * d2::Isometry::translation(t.x, t.y);
+            match crate::p2::query::contact(&p1, &crate::p2::shape::Cuboid::new(he1), &p2, &crate::p2::shape::Cuboid::new(he2), 1.0e6) {
+                Ok(Some(c)) => ff(c.dist), Ok(None) => "none".into(), Err(_) => "unsupported".into(),
+            }
+        }
+        "k2_contact" | "e2_contact" => {
             use crate::p2::query::PointQuery as _;
             let s1 = c03::two::sh(a); let p1 = d2::iso(a); let s2 = c03::two::sh(a); let p2 = d2::iso(a); let pred = a.f();
             let (g1, g2) = (c03::two::dynsh(&s1), c03::two::dynsh(&s2));
@@ -194,6 +241,7 @@ pub fn gen(r: &mut Rng, thorough: bool) -> Vec<(String, String)> {
             for f in ["sat_normal", "sat_edge", "it_cc"] { v.push((f.into(), cc.clone())); }
         }
         c03::two::gen_k(r, lat, &mut v);
+        fu2::gen(r, lat, &mut v);
     }
     // ---- degenerate-but-valid corners (shared with C03): ball centre exactly on a feature of the other shape, both argument
     //      orders, rotated poses: the contact against the exact referee (x_contact), its self-consistency through the
@@ -222,4 +270,347 @@ pub fn gen(r: &mut Rng, thorough: bool) -> Vec<(String, String)> {
         }
     }
     v
+}
+
+// ================================================================== follow-up 2: structured families
+/// Families added for the second follow-up:
+///  * convex pairs whose GJK run ends with the origin ON a lower-dimensional simplex (the relative translation is a dyadic
+///    convex combination of two / three support points of the configuration-space obstacle), so that EPA starts from a
+///    1-D (2-D, 3-D) or 2-D (3-D) simplex; plus generic overlapping / grazing / separated convex pairs.  Judged against
+///    the exact signed separation (`e_contact`, `e2_contact`).
+///  * composites with 5..12 parts (their QBVH has several leaves): Compound rows / grids, open TriMesh grids, Polyline
+///    chains, against a bar / ball / capsule put next to (or into) one chosen part from either side along any axis, so the
+///    closest part is decided between neighbouring BVH nodes.  Four verdicts + distances, both argument orders (`v_comp`,
+///    `v2_comp`).
+pub mod fu2 {
+    use crate::util::*;
+    use super::c03::{self, Sh};
+    use super::c03::two as t2;
+    use crate::p3::query::gjk::{self as gjk3, CSOPoint as Cso3, GJKResult as Res3, VoronoiSimplex as Vs3};
+    use crate::p2::query::gjk::{self as gjk2, CSOPoint as Cso2, GJKResult as Res2, VoronoiSimplex as Vs2};
+    use d3::{Isometry, Point, Real, Vector};
+    type Iso2 = d2::Isometry<Real>; type Vec2 = d2::Vector<Real>; type Pt2 = d2::Point<Real>;
+
+    fn dy(r: &mut Rng) -> f64 { *r.pick(&[0.25, 0.5, 0.75, 1.0, 1.5, 2.0]) }
+    fn q4(r: &mut Rng, k: i64) -> f64 { r.range(-k, k) as f64 * 0.25 }
+    fn iso2_of(c: (f64, f64), t: Vec2) -> Iso2 {
+        Iso2::from_parts(d2::na::Translation2::from(t), d2::na::Unit::new_unchecked(d2::na::Complex::new(c.0, c.1)))
+    }
+    fn exact_rot2(r: &mut Rng) -> (f64, f64) { *r.pick(&[(1.0, 0.0), (0.0, 1.0), (-1.0, 0.0), (0.0, -1.0)]) }
+
+    // ------------------------------------------------------------ convex pairs (3-D)
+    /// a polytope-like convex shape with dyadic data (lat) or random data: cuboid / triangle / segment / capsule
+    fn convex3(r: &mut Rng, lat: bool) -> Sh {
+        let c = |r: &mut Rng| if lat { q4(r, 6) } else { r.uniform(-1.5, 1.5) };
+        let e = |r: &mut Rng| if lat { dy(r) } else { r.uniform(0.2, 2.0) };
+        match r.below(6) {
+            0 | 1 | 2 => Sh::Cuboid(Vector::new(e(r), e(r), e(r))),
+            3 => loop { let (p, q, s) = (Point::new(c(r), c(r), c(r)), Point::new(c(r), c(r), c(r)), Point::new(c(r), c(r), c(r)));
+                        if (q - p).cross(&(s - p)).norm() > 0.2 { break Sh::Triangle(p, q, s); } },
+            4 => loop { let (p, q) = (Point::new(c(r), c(r), c(r)), Point::new(c(r), c(r), c(r))); if (q - p).norm() > 0.4 { break Sh::Segment(p, q); } },
+            _ => loop { let (p, q) = (Point::new(c(r), c(r), c(r)), Point::new(c(r), c(r), c(r))); if (q - p).norm() > 0.4 { break Sh::Capsule(p, q, e(r).min(1.0)); } },
+        }
+    }
+    fn lat_dir3(r: &mut Rng) -> Vector<Real> {
+        loop { let v = Vector::new(r.range(-2, 2) as f64, r.range(-2, 2) as f64, r.range(-2, 2) as f64); if v.norm() > 0.0 { return v; } }
+    }
+    /// dimension of the GJK simplex when `contact` hands over to EPA (None: GJK did not report an intersection)
+    pub fn gjk_dim3(s1: &Sh, s2: &Sh, pos12: &Isometry<Real>) -> Option<usize> {
+        let (g1, g2) = (c03::dynsh(s1), c03::dynsh(s2));
+        let (m1, m2) = (g1.as_support_map()?, g2.as_support_map()?);
+        let dir = d3::na::Unit::try_new(pos12.translation.vector, f64::EPSILON).unwrap_or(Vector::x_axis());
+        let mut sx = Vs3::new();
+        sx.reset(Cso3::from_shapes(pos12, m1, m2, &dir));
+        match gjk3::closest_points(pos12, m1, m2, 0.0, true, &mut sx) { Res3::Intersection => Some(sx.dimension()), _ => None }
+    }
+    /// relative pose (exact rotation, translation = dyadic convex combination of 2 or 3 support points of A - R·B):
+    /// the origin of the configuration space then lies on the segment / triangle spanned by GJK's first support points
+    pub fn gjk_simplex3(r: &mut Rng, lat: bool) -> Option<(Sh, Sh, Isometry<Real>, usize)> {
+        for _ in 0..40 {
+            let (s1, s2) = (convex3(r, lat), convex3(r, lat));
+            let rot = if lat { c03::exact_quat(r) } else { d3::gen_quat(r, false) };
+            let rel0 = c03::iso_of(rot, Vector::zeros());
+            let (g1, g2) = (c03::dynsh(&s1), c03::dynsh(&s2));
+            let (m1, m2) = (g1.as_support_map()?, g2.as_support_map()?);
+            let sup = |d: &Vector<Real>| Cso3::from_shapes(&rel0, m1, m2, d).point.coords;
+            let v1 = sup(&lat_dir3(r)); let v2 = sup(&lat_dir3(r)); let v3 = sup(&lat_dir3(r));
+            if (v2 - v1).norm() < 1.0e-9 { continue; }
+            let w = |r: &mut Rng| *r.pick(&[0.125, 0.25, 0.5, 0.75]);
+            let t = if r.below(3) != 0 { let m = w(r); v1 + (v2 - v1) * m } else { let (m, n) = (w(r) * 0.5, w(r) * 0.5); v1 + (v2 - v1) * m + (v3 - v1) * n };
+            let rel = c03::iso_of(rot, t);
+            if let Some(d) = gjk_dim3(&s1, &s2, &rel) { if d < 3 || r.below(4) == 0 { return Some((s1, s2, rel, d)); } }
+        }
+        None
+    }
+
+    // ------------------------------------------------------------ convex pairs (2-D)
+    fn convex2(r: &mut Rng, lat: bool) -> t2::Sh {
+        let c = |r: &mut Rng| if lat { q4(r, 6) } else { r.uniform(-1.5, 1.5) };
+        let e = |r: &mut Rng| if lat { dy(r) } else { r.uniform(0.2, 2.0) };
+        match r.below(6) {
+            0 | 1 | 2 => t2::Sh::Cuboid(Vec2::new(e(r), e(r))),
+            3 => loop { let (p, q, s) = (Pt2::new(c(r), c(r)), Pt2::new(c(r), c(r)), Pt2::new(c(r), c(r)));
+                        if (q - p).perp(&(s - p)).abs() > 0.2 { break t2::Sh::Triangle(p, q, s); } },
+            4 => loop { let (p, q) = (Pt2::new(c(r), c(r)), Pt2::new(c(r), c(r))); if (q - p).norm() > 0.4 { break t2::Sh::Segment(p, q); } },
+            _ => loop { let (p, q) = (Pt2::new(c(r), c(r)), Pt2::new(c(r), c(r))); if (q - p).norm() > 0.4 { break t2::Sh::Capsule(p, q, e(r).min(1.0)); } },
+        }
+    }
+    fn lat_dir2(r: &mut Rng) -> Vec2 {
+        loop { let v = Vec2::new(r.range(-2, 2) as f64, r.range(-2, 2) as f64); if v.norm() > 0.0 { return v; } }
+    }
+    fn gjk_dim2(s1: &t2::Sh, s2: &t2::Sh, pos12: &Iso2) -> Option<usize> {
+        let (g1, g2) = (t2::dynsh(s1), t2::dynsh(s2));
+        let (m1, m2) = (g1.as_support_map()?, g2.as_support_map()?);
+        let dir = d2::na::Unit::try_new(pos12.translation.vector, f64::EPSILON).unwrap_or(Vec2::x_axis());
+        let mut sx = Vs2::new();
+        sx.reset(Cso2::from_shapes(pos12, m1, m2, &dir));
+        match gjk2::closest_points(pos12, m1, m2, 0.0, true, &mut sx) { Res2::Intersection => Some(sx.dimension()), _ => None }
+    }
+    pub fn gjk_simplex2(r: &mut Rng, lat: bool) -> Option<(t2::Sh, t2::Sh, Iso2, usize)> {
+        for _ in 0..40 {
+            let (s1, s2) = (convex2(r, lat), convex2(r, lat));
+            let rot = if lat { exact_rot2(r) } else { d2::gen_rot(r, false) };
+            let rel0 = iso2_of(rot, Vec2::zeros());
+            let (g1, g2) = (t2::dynsh(&s1), t2::dynsh(&s2));
+            let (m1, m2) = (g1.as_support_map()?, g2.as_support_map()?);
+            let sup = |d: &Vec2| Cso2::from_shapes(&rel0, m1, m2, d).point.coords;
+            // two support points in opposite directions straddle the body of the configuration-space obstacle
+            let d = lat_dir2(r);
+            let v1 = sup(&d); let v2 = if r.bool() { sup(&-d) } else { sup(&lat_dir2(r)) };
+            let m = *r.pick(&[0.125, 0.25, 0.5, 0.75]);
+            if (v2 - v1).norm() < 1.0e-9 { continue; }
+            let t = v1 + (v2 - v1) * m;
+            let rel = iso2_of(rot, t);
+            if let Some(dm) = gjk_dim2(&s1, &s2, &rel) { if dm < 2 || r.below(4) == 0 { return Some((s1, s2, rel, dm)); } }
+        }
+        None
+    }
+    /// generic 2-D convex pair at a chosen signed gap along a random direction (deep overlap .. grazing .. apart)
+    pub fn near_pair2(r: &mut Rng, lat: bool) -> (t2::Sh, Iso2, t2::Sh, Iso2) {
+        let pick = |r: &mut Rng| if r.below(5) == 0 { t2::Sh::Ball(if lat { dy(r) } else { r.uniform(0.2, 2.0) }) } else { convex2(r, lat) };
+        let (s1, s2) = (pick(r), pick(r));
+        let ts = if r.below(4) == 0 { 500.0 } else { 20.0 };
+        let p1 = d2::gen_iso(r, lat, ts);
+        let rot2 = d2::gen_rot(r, lat);
+        let (g1, g2) = (t2::dynsh(&s1), t2::dynsh(&s2));
+        let dir = { let (c, s) = d2::gen_rot(r, lat); Vec2::new(c, s) };
+        let r2 = iso2_of(rot2, Vec2::zeros());
+        let r1 = iso2_of((p1.rotation.re, p1.rotation.im), Vec2::zeros());
+        let e1 = g1.as_support_map().map(|m| m.support_point(&r1, &dir).coords.dot(&dir)).unwrap_or(0.0);
+        let e2 = g2.as_support_map().map(|m| m.support_point(&r2, &-dir).coords.dot(&-dir)).unwrap_or(0.0);
+        let gap = if lat { *r.pick(&[-1.0, -0.5, -0.25, -0.125, 0.125, 0.25, 0.5, 1.0]) } else { r.uniform(-1.0, 1.0) };
+        let lateral = Vec2::new(-dir.y, dir.x) * if lat { q4(r, 2) } else { r.uniform(-0.5, 0.5) };
+        let p2 = iso2_of(rot2, p1.translation.vector + dir * (e1 + e2 + gap) + lateral);
+        (s1, p1, s2, p2)
+    }
+
+    // ------------------------------------------------------------ composites with many parts (3-D)
+    fn part3(r: &mut Rng, lat: bool) -> Sh {
+        let e = |r: &mut Rng| if lat { *r.pick(&[0.25, 0.5, 0.75]) } else { r.uniform(0.2, 0.8) };
+        match r.below(4) {
+            0 => Sh::Ball(e(r)),
+            1 | 2 => Sh::Cuboid(Vector::new(e(r), e(r), e(r))),
+            _ => { let h = e(r); let mut a = Vector::zeros(); a[r.below(3) as usize] = h; Sh::Capsule(Point::from(-a), Point::from(a), e(r).min(0.5)) }
+        }
+    }
+    fn unit3(i: usize, s: f64) -> Vector<Real> { let mut v = Vector::zeros(); v[i] = s; v }
+    /// a composite with 5..=12 parts and the local centre + rough radius of every part
+    pub fn many3(r: &mut Rng, lat: bool) -> (Sh, Vec<(Point<Real>, f64)>, usize) {
+        let ax = r.below(3) as usize; let ay = (ax + 1 + r.below(2) as usize) % 3;
+        if r.below(4) == 0 {
+            // open TriMesh grid in the plane spanned by (ax, ay), heights along the third axis
+            let az = 3 - ax - ay;
+            let nx = 3 + r.below(3) as usize; let ny = 1 + r.below(2) as usize;
+            let cs = if lat { *r.pick(&[1.0, 1.5, 2.0]) } else { r.uniform(0.8, 2.0) };
+            let x0 = if lat { q4(r, 8) } else { r.uniform(-2.0, 2.0) } - cs * nx as f64 * 0.5; let y0 = if lat { q4(r, 8) } else { r.uniform(-2.0, 2.0) };
+            let mut vs = Vec::new();
+            for j in 0..=ny { for i in 0..=nx {
+                let h = if lat { *r.pick(&[0.0, 0.25, 0.5, -0.25]) } else { r.uniform(-0.4, 0.4) };
+                vs.push(Point::from(unit3(ax, x0 + cs * i as f64) + unit3(ay, y0 + cs * j as f64) + unit3(az, h)));
+            } }
+            let mut ts: Vec<[u32; 3]> = Vec::new();
+            let id = |i: usize, j: usize| (j * (nx + 1) + i) as u32;
+            for j in 0..ny { for i in 0..nx { ts.push([id(i, j), id(i + 1, j), id(i + 1, j + 1)]); ts.push([id(i, j), id(i + 1, j + 1), id(i, j + 1)]); } }
+            let parts = ts.iter().map(|t| { let c = (vs[t[0] as usize].coords + vs[t[1] as usize].coords + vs[t[2] as usize].coords) / 3.0; (Point::from(c), 0.0) }).collect();
+            (Sh::TriMesh(0, vs, ts), parts, az)
+        } else {
+            let n = 5 + r.below(8) as usize;
+            let rows = if n >= 8 && r.bool() { 2 } else { 1 };
+            let sp = if lat { *r.pick(&[2.0, 2.5, 3.0]) } else { r.uniform(1.8, 3.2) };
+            let x0 = if lat { q4(r, 8) } else { r.uniform(-2.0, 2.0) } - sp * (n / rows) as f64 * 0.5;
+            let mut ps = Vec::new(); let mut info = Vec::new();
+            for k in 0..n {
+                let (i, j) = (k / rows, k % rows);
+                let jit = |r: &mut Rng| if lat { q4(r, 1) } else { r.uniform(-0.3, 0.3) };
+                let c = unit3(ax, x0 + sp * i as f64 + jit(r)) + unit3(ay, sp * j as f64 + jit(r)) + unit3(3 - ax - ay, jit(r));
+                let q = if lat { c03::exact_quat(r) } else if r.bool() { [0.0, 0.0, 0.0, 1.0] } else { d3::gen_quat(r, false) };
+                let s = part3(r, lat);
+                info.push((Point::from(c), c03::size(&s)));
+                ps.push((c03::iso_of(q, c), s));
+            }
+            // shuffle the part order (the BVH must not depend on it, the generator should not rely on it)
+            for i in (1..ps.len()).rev() { let j = r.below(i as u64 + 1) as usize; ps.swap(i, j); info.swap(i, j); }
+            (Sh::Compound(ps), info, ax)
+        }
+    }
+    /// the other shape: a bar / capsule elongated along `ax`, or a ball; returns the shape and its half-length along `ax`
+    fn other3(r: &mut Rng, lat: bool, ax: usize) -> (Sh, f64) {
+        let l = if lat { *r.pick(&[0.5, 0.75, 1.5, 2.5]) } else { r.uniform(0.3, 3.0) };
+        let w = if lat { *r.pick(&[0.25, 0.5, 0.75]) } else { r.uniform(0.2, 0.8) };
+        match r.below(5) {
+            0 => (Sh::Ball(w), w),
+            1 => (Sh::Capsule(Point::from(unit3(ax, -l)), Point::from(unit3(ax, l)), w), l + w),
+            _ => { let mut he = Vector::new(w, w, w); he[ax] = l; (Sh::Cuboid(he), l) }
+        }
+    }
+    /// (composite, its pose, other shape, its pose)
+    pub fn comp_case3(r: &mut Rng, lat: bool) -> (Sh, Isometry<Real>, Sh, Isometry<Real>) {
+        let (comp, info, ax0) = many3(r, lat);
+        let mesh = matches!(comp, Sh::TriMesh(..));
+        // approach axis: the layout axis in most cases (the neighbours compete), any axis otherwise
+        let ax = if r.below(4) == 0 { r.below(3) as usize } else { ax0 };
+        let (other, half) = other3(r, lat, if mesh { (ax0 + 1) % 3 } else { ax });
+        let (c, rad) = *r.pick(&info);
+        let sg = if r.bool() { 1.0 } else { -1.0 };
+        let gap = if lat { *r.pick(&[-0.5, -0.25, 0.0625, 0.125, 0.25, 0.5, 1.0]) } else if r.below(3) == 0 { -r.uniform(0.05, 0.6) } else { r.logu(0.02, 1.5) };
+        // extent of the chosen part along the approach axis (support of the real shape for compounds, 0 for a triangle)
+        let ext = if let Sh::Compound(ps) = &comp {
+            let k = info.iter().position(|x| x.0 == c).unwrap();
+            let g = c03::dynsh(&ps[k].1);
+            g.as_support_map().map(|m| m.support_point(&c03::iso_of([ps[k].0.rotation.i, ps[k].0.rotation.j, ps[k].0.rotation.k, ps[k].0.rotation.w], Vector::zeros()), &unit3(ax, sg)).coords[ax] * sg).unwrap_or(rad)
+        } else { 0.0 };
+        let oh = if mesh { match &other { Sh::Ball(w) => *w, Sh::Capsule(_, _, w) => *w, Sh::Cuboid(he) => he[ax], _ => 0.0 } } else if ax == ax0 || matches!(other, Sh::Ball(_)) { half } else { match &other { Sh::Capsule(_, _, w) => *w, Sh::Cuboid(he) => he[ax], _ => half } };
+        let jit = |r: &mut Rng| if lat { q4(r, 1) * 0.5 } else { r.uniform(-0.2, 0.2) };
+        let mut lc = c.coords + unit3(ax, sg * (ext + gap + oh));
+        for k in 0..3 { if k != ax { lc[k] += jit(r); } }
+        let orot = if r.below(4) != 0 { [0.0, 0.0, 0.0, 1.0] } else if lat { c03::exact_quat(r) } else { d3::gen_quat(r, false) };
+        let ts = if r.below(4) == 0 { 500.0 } else { 20.0 };
+        let p1 = if lat && r.bool() { c03::iso_of(c03::exact_quat(r), Vector::new(q4(r, 40), q4(r, 40), q4(r, 40))) } else { d3::gen_iso(r, lat, ts) };
+        let p2 = p1 * c03::iso_of(orot, lc);
+        (comp, p1, other, p2)
+    }
+
+    // ------------------------------------------------------------ composites with many parts (2-D)
+    fn part2(r: &mut Rng, lat: bool) -> t2::Sh {
+        let e = |r: &mut Rng| if lat { *r.pick(&[0.25, 0.5, 0.75]) } else { r.uniform(0.2, 0.8) };
+        match r.below(4) {
+            0 => t2::Sh::Ball(e(r)),
+            1 | 2 => t2::Sh::Cuboid(Vec2::new(e(r), e(r))),
+            _ => { let h = e(r); let mut a = Vec2::zeros(); a[r.below(2) as usize] = h; t2::Sh::Capsule(Pt2::from(-a), Pt2::from(a), e(r).min(0.5)) }
+        }
+    }
+    fn unit2(i: usize, s: f64) -> Vec2 { let mut v = Vec2::zeros(); v[i] = s; v }
+    fn size2(s: &t2::Sh) -> f64 { match s { t2::Sh::Ball(r) => *r, t2::Sh::Cuboid(h) => h.norm(), t2::Sh::Capsule(p, q, r) => p.coords.norm().max(q.coords.norm()) + r, _ => 0.0 } }
+    pub fn many2(r: &mut Rng, lat: bool) -> (t2::Sh, Vec<(Pt2, f64)>, usize) {
+        let ax = r.below(2) as usize; let ay = 1 - ax;
+        if r.below(3) == 0 {
+            // Polyline chain with 6..=12 vertices advancing along `ax`
+            let n = 6 + r.below(7) as usize;
+            let dx = if lat { *r.pick(&[1.0, 1.5, 2.0]) } else { r.uniform(0.8, 2.0) };
+            let x0 = if lat { q4(r, 8) } else { r.uniform(-2.0, 2.0) } - dx * n as f64 * 0.5;
+            let vs: Vec<Pt2> = (0..n).map(|i| { let h = if lat { q4(r, 3) } else { r.uniform(-0.8, 0.8) }; Pt2::from(unit2(ax, x0 + dx * i as f64) + unit2(ay, h)) }).collect();
+            let info = (0..n - 1).map(|i| (d2::na::center(&vs[i], &vs[i + 1]), 0.0)).collect();
+            (t2::Sh::Polyline(vs), info, ay)
+        } else {
+            let n = 5 + r.below(8) as usize;
+            let rows = if n >= 8 && r.bool() { 2 } else { 1 };
+            let sp = if lat { *r.pick(&[2.0, 2.5, 3.0]) } else { r.uniform(1.8, 3.2) };
+            let x0 = if lat { q4(r, 8) } else { r.uniform(-2.0, 2.0) } - sp * (n / rows) as f64 * 0.5;
+            let mut ps = Vec::new(); let mut info = Vec::new();
+            for k in 0..n {
+                let (i, j) = (k / rows, k % rows);
+                let jit = |r: &mut Rng| if lat { q4(r, 1) } else { r.uniform(-0.3, 0.3) };
+                let c = unit2(ax, x0 + sp * i as f64 + jit(r)) + unit2(ay, sp * j as f64 + jit(r));
+                let rot = if lat { exact_rot2(r) } else if r.bool() { (1.0, 0.0) } else { d2::gen_rot(r, false) };
+                let s = part2(r, lat);
+                info.push((Pt2::from(c), size2(&s)));
+                ps.push((iso2_of(rot, c), s));
+            }
+            for i in (1..ps.len()).rev() { let j = r.below(i as u64 + 1) as usize; ps.swap(i, j); info.swap(i, j); }
+            (t2::Sh::Compound(ps), info, ax)
+        }
+    }
+    pub fn comp_case2(r: &mut Rng, lat: bool) -> (t2::Sh, Iso2, t2::Sh, Iso2) {
+        let (comp, info, ax0) = many2(r, lat);
+        let line = matches!(comp, t2::Sh::Polyline(..));
+        let ax = if r.below(4) == 0 { r.below(2) as usize } else { ax0 };
+        let l = if lat { *r.pick(&[0.5, 0.75, 1.5, 2.5]) } else { r.uniform(0.3, 3.0) };
+        let w = if lat { *r.pick(&[0.25, 0.5, 0.75]) } else { r.uniform(0.2, 0.8) };
+        let lax = if line { 1 - ax0 } else { ax };   // elongation axis of the other shape
+        let other = match r.below(5) {
+            0 => t2::Sh::Ball(w),
+            1 => t2::Sh::Capsule(Pt2::from(unit2(lax, -l)), Pt2::from(unit2(lax, l)), w),
+            _ => { let mut he = Vec2::new(w, w); he[lax] = l; t2::Sh::Cuboid(he) }
+        };
+        let oh = match &other { t2::Sh::Ball(w) => *w, t2::Sh::Capsule(_, _, w) => if lax == ax { l + *w } else { *w }, t2::Sh::Cuboid(he) => he[ax], _ => 0.0 };
+        let (c, rad) = *r.pick(&info);
+        let sg = if r.bool() { 1.0 } else { -1.0 };
+        let gap = if lat { *r.pick(&[-0.5, -0.25, 0.0625, 0.125, 0.25, 0.5, 1.0]) } else if r.below(3) == 0 { -r.uniform(0.05, 0.6) } else { r.logu(0.02, 1.5) };
+        let ext = if let t2::Sh::Compound(ps) = &comp {
+            let k = info.iter().position(|x| x.0 == c).unwrap();
+            let g = t2::dynsh(&ps[k].1);
+            g.as_support_map().map(|m| m.support_point(&iso2_of((ps[k].0.rotation.re, ps[k].0.rotation.im), Vec2::zeros()), &unit2(ax, sg)).coords[ax] * sg).unwrap_or(rad)
+        } else { 0.0 };
+        let mut lc = c.coords + unit2(ax, sg * (ext + gap + oh));
+        lc[1 - ax] += if lat { q4(r, 1) * 0.5 } else { r.uniform(-0.2, 0.2) };
+        let orot = if r.below(4) != 0 { (1.0, 0.0) } else if lat { exact_rot2(r) } else { d2::gen_rot(r, false) };
+        let ts = if r.below(4) == 0 { 500.0 } else { 20.0 };
+        let p1 = if lat && r.bool() { iso2_of(exact_rot2(r), Vec2::new(q4(r, 40), q4(r, 40))) } else { d2::gen_iso(r, lat, ts) };
+        let p2 = p1 * iso2_of(orot, lc);
+        (comp, p1, other, p2)
+    }
+
+    pub fn gen(r: &mut Rng, lat: bool, v: &mut Vec<(String, String)>) {
+        let par = |r: &mut Rng| { let p = c03::gen_param(r, lat); if r.bool() { p.max(1.0) } else { p } };
+        // ---- 3-D composites
+        {
+            let (comp, p1, other, p2) = comp_case3(r, lat);
+            let (margin, pred) = (par(r), par(r));
+            v.push(("v_comp".into(), format!("{} {} {} {} {} {}", c03::hsh(&comp), d3::hiso(&p1), c03::hsh(&other), d3::hiso(&p2), hx(margin), hx(pred))));
+        }
+        // ---- 2-D composites
+        for _ in 0..2 {
+            let (comp, p1, other, p2) = comp_case2(r, lat);
+            let (margin, pred) = (par(r), par(r));
+            v.push(("v2_comp".into(), format!("{} {} {} {} {} {}", t2::hsh(&comp), d2::hiso(&p1), t2::hsh(&other), d2::hiso(&p2), hx(margin), hx(pred))));
+        }
+        // ---- convex pairs, GJK ending on a lower-dimensional simplex: local frame (exact), then under a world pose
+        if let Some((s1, s2, rel, _)) = gjk_simplex2(r, lat) {
+            let p1 = match r.below(3) { 0 => Iso2::identity(), 1 => iso2_of(exact_rot2(r), Vec2::new(q4(r, 40), q4(r, 40))), _ => d2::gen_iso(r, lat, 50.0) };
+            let p2 = p1 * rel;
+            let (a, bb) = if r.bool() { ((s1, p1), (s2, p2)) } else { ((s2, p2), (s1, p1)) };
+            v.push(("e2_contact".into(), format!("{} {} {} {} {}", t2::hsh(&a.0), d2::hiso(&a.1), t2::hsh(&bb.0), d2::hiso(&bb.1), hx(par(r)))));
+        }
+        if let Some((s1, s2, rel, _)) = gjk_simplex3(r, lat) {
+            let p1 = match r.below(3) { 0 => Isometry::identity(), 1 => c03::iso_of(c03::exact_quat(r), Vector::new(q4(r, 40), q4(r, 40), q4(r, 40))), _ => d3::gen_iso(r, lat, 50.0) };
+            let p2 = p1 * rel;
+            let (a, bb) = if r.bool() { ((s1, p1), (s2, p2)) } else { ((s2, p2), (s1, p1)) };
+            v.push(("e_contact".into(), format!("{} {} {} {} {}", c03::hsh(&a.0), d3::hiso(&a.1), c03::hsh(&bb.0), d3::hiso(&bb.1), hx(par(r)))));
+        }
+        // ---- rectangles with parallel axes (closed-form model): translation along a diagonal of the sum box (GJK ends on
+        //      a segment), inside a symmetry axis, generic; overlapping / apart; local frame and under a world pose
+        {
+            let e = |r: &mut Rng| if lat { dy(r) } else { r.uniform(0.2, 2.0) };
+            let (he1, he2) = (Vec2::new(e(r), e(r)), Vec2::new(e(r), e(r)));
+            let hs = he1 + he2;
+            let f = |r: &mut Rng| if lat { *r.pick(&[-1.5, -0.75, -0.5, -0.25, 0.0, 0.25, 0.5, 0.75, 1.5]) } else { r.uniform(-1.6, 1.6) };
+            let fam = r.below(4);
+            let t = match fam { 0 => { let k = f(r); Vec2::new(hs.x * k, hs.y * k * if r.bool() { 1.0 } else { -1.0 }) }
+                                1 => if r.bool() { Vec2::new(hs.x * f(r), 0.0) } else { Vec2::new(0.0, hs.y * f(r)) },
+                                _ => Vec2::new(hs.x * f(r), hs.y * f(r)) };
+            // the diagonal family is posed exactly only: under an inexact world pose the origin ends within rounding of GJK's
+            // segment and the known absolute-tolerance finding (see e2_contact) would show up as a model disagreement
+            let p1 = match r.below(if fam == 0 { if lat { 2 } else { 1 } } else { 3 }) { 0 => Iso2::identity(), 1 => iso2_of(exact_rot2(r), Vec2::new(q4(r, 40), q4(r, 40))), _ => d2::gen_iso(r, lat, 50.0) };
+            v.push(("rect2_dist".into(), format!("{} {} {} {}", d2::hv(&he1), d2::hv(&he2), d2::hv(&t), d2::hiso(&p1))));
+        }
+        // ---- generic convex pairs at a chosen signed gap
+        {
+            let (s1, p1, s2, p2) = near_pair2(r, lat);
+            v.push(("e2_contact".into(), format!("{} {} {} {} {}", t2::hsh(&s1), d2::hiso(&p1), t2::hsh(&s2), d2::hiso(&p2), hx(par(r)))));
+            let all: [u8; 5] = [0, 1, 3, 4, 5];
+            let (s1, s2) = (c03::gen_shape(r, lat, &all), c03::gen_shape(r, lat, &all));
+            let (p1, p2, _) = c03::gen_poses(r, lat, &s1, &s2);
+            v.push(("e_contact".into(), format!("{} {} {} {} {}", c03::hsh(&s1), d3::hiso(&p1), c03::hsh(&s2), d3::hiso(&p2), hx(par(r)))));
+        }
+    }
 }
